@@ -184,7 +184,7 @@ type cyclicCase struct {
 	Kinds    []string  `json:"kinds"`
 	Siblings []int     `json:"siblings"`
 	V        model.Val `json:"value"`
-	Op       string    `json:"op"` // compare rank
+	Op       string    `json:"op"`    // compare rank
 	Other    string    `json:"other"` // self copy
 }
 
